@@ -13,6 +13,7 @@ import (
 	gojson "github.com/goccy/go-json"
 	"pgregory.net/rapid"
 
+	_ "verif/harness/dec"
 	"verif/harness/enc"
 	"verif/harness/gen"
 	"verif/harness/known"
@@ -326,24 +327,14 @@ func TestWitness(t *testing.T) {
 		_, werr := stdjson.Marshal(v)
 		return err == nil && werr != nil, fmt.Sprintf("go-json output %q err=%v; encoding/json err=%v", out, err, werr)
 	}
-	switch rt.E.Witness {
-	case kfFloat32:
-		nan := float32(0)
-		nan = nan / nan * 0
-		still, d := bad([]float32{float32(inf())})
-		rt.WitnessResult(still, d)
-	case kfLenient:
-		still, d := bad(gen.HostMJ{Out: `01`})
-		rt.WitnessResult(still, d)
-	case kfNoNormUTF:
+	known.Witnesses[kfFloat32] = func() (bool, string) { return bad([]float32{float32(inf())}) }
+	known.Witnesses[kfLenient] = func() (bool, string) { return bad(gen.HostMJ{Out: "\"a\x01b\""}) }
+	known.Witnesses[kfNoNormUTF] = func() (bool, string) {
 		out, err := gojson.Marshal(gen.HostMJ{Out: "\"\xff\""})
-		rt.WitnessResult(err == nil && !utf8.Valid(out), fmt.Sprintf("output %q err=%v", out, err))
-	case "FX-C03-ill-formed-number":
-		still, d := bad(stdjson.Number("1e"))
-		rt.WitnessResult(still, d)
-	default:
-		enc.RunWitness(t)
+		return err == nil && !utf8.Valid(out), fmt.Sprintf("output %q err=%v", out, err)
 	}
+	known.Witnesses["FX-C03-ill-formed-number"] = func() (bool, string) { return bad(stdjson.Number("1e")) }
+	enc.RunWitness(t)
 }
 
 func inf() float64 {
